@@ -50,6 +50,15 @@ Visible(t, d) ==
   /\ s * WNum(t, d) > 0
   /\ s * NearNum(t, d) > 0 /\ s * FarNum(t, d) > 0
 
+\* Facing.  All pieces of a clipped triangle have w > 0, so the winding of a piece on the
+\* screen (the viewport keeps both axes' directions) is the sign of det[x y w] of the
+\* unclipped triangle: positive = "back face" (render.rs is_backface: cross > 0).
+\* cull: 0 = none, 1 = back faces dropped, 2 = front faces (cross <= 0) dropped
+FaceDet(t) == Det3(XYW(t.v[1]), XYW(t.v[2]), XYW(t.v[3]))
+Culled(cull, t) == (cull = 1 /\ FaceDet(t) > 0) \/ (cull = 2 /\ FaceDet(t) <= 0)
+CullOf(e) == IF "cull" \in DOMAIN e THEN e.cull ELSE 0
+Drawn(e) == {k \in 1..Len(e.tris) : ~Culled(CullOf(e), e.tris[k])}
+
 \* floor(a * 32^k / d) for a >= 0, d > 0, multiplying only remainders (32-bit safe)
 RECURSIVE FracDigits(_, _, _)
 FracDigits(r, d, k) == IF k = 0 THEN 0
@@ -93,8 +102,8 @@ PixelOK(e, px, py) ==
   LET obs == e.img[py + 1][px + 1]
       r == RayOf(e.vp, px, py)
       ds == [k \in 1..Len(e.tris) |-> DOf(e.tris[k], r)]
-      vis == {k \in 1..Len(e.tris) : Visible(e.tris[k], ds[k])}
-      amb == \/ \E k \in 1..Len(e.tris) : AmbigTri(e.vp, e.tris[k], px, py)
+      vis == {k \in Drawn(e) : Visible(e.tris[k], ds[k])}
+      amb == \/ \E k \in Drawn(e) : AmbigTri(e.vp, e.tris[k], px, py)
              \/ \E j \in 1..Len(e.fan) : NearSeg(e.fan[j], px, py)
   IN amb \/
      IF vis = {} THEN obs[1] = 0
@@ -130,9 +139,9 @@ VpPixels(e) ==
 \* statistics: pixels judged as covered / as kept (not ambiguous)
 PixelClass(e, px, py) ==
   LET r == RayOf(e.vp, px, py)
-      amb == \/ \E k \in 1..Len(e.tris) : AmbigTri(e.vp, e.tris[k], px, py)
+      amb == \/ \E k \in Drawn(e) : AmbigTri(e.vp, e.tris[k], px, py)
              \/ \E j \in 1..Len(e.fan) : NearSeg(e.fan[j], px, py)
-  IN IF amb THEN 0 ELSE IF \E k \in 1..Len(e.tris) : Visible(e.tris[k], DOf(e.tris[k], r)) THEN 1 ELSE 2
+  IN IF amb THEN 0 ELSE IF \E k \in Drawn(e) : Visible(e.tris[k], DOf(e.tris[k], r)) THEN 1 ELSE 2
 Judged(e, c) == Cardinality({p \in VpPixels(e) : PixelClass(e, p[1], p[2]) = c})
 
 ImageAllowed(e) ==
